@@ -7,7 +7,7 @@ import PlinioVerif.Model.SuperNet
 `out||a` (arguments are node numbers) answers
 
 `ok win=[<combiner>|k,…] nodes=[…surviving nodes, renumbered…] mods=[…surviving module names…]
- plain=<0|1> sim=<0|1> out=<hash> hyp=<0|1>`
+ plain=<0|1> sim=<0|1> out=<hash> hyp=<0|1> pure=<0|1>`
 
 (`plain`: no choice node left; `sim`: every surviving node has the value it has in the hard
 evaluation of the SuperNet, for the structural-hash leaf semantics; `out`: that hash of the output)
@@ -19,7 +19,8 @@ runs the op sequence (alpha written / hard switched / temperature updated / forw
 combiner states and answers `win=[<combiner>|k,…] sampled=[<combiner>|k or ?,…] hard=[…]`: the branch
 `export()` selects afterwards (arg-max of the *current* alpha), the position of the largest entry
 of `theta_alpha` (`?` after Gumbel noise) and the hard flags.  `hyp`: the traced graph satisfies the hypotheses of the
-C03 theorems (`WF`, `IOSane`, `Discipline`, the last node is the `output`). -/
+C03 theorems (`WF`, `IOSane`, `Discipline`, the last node is the `output`); `pure`: `PureLeaves` (no
+function fx regards as impure — `fni|…` nodes — in the graph). -/
 open PlinioVerif PlinioVerif.Proto PlinioVerif.SuperNet
 
 def parseArgs? (s : String) : Option (List Nat) :=
@@ -33,6 +34,7 @@ def parseNode? (t : String) : Option Node :=
     | "in" => (tgt.toNat?).map fun n => Node.input n
     | "mod" => some (Node.leaf ⟨.module, tgt⟩ args)
     | "fn" => some (Node.leaf ⟨.function, tgt⟩ args)
+    | "fni" => some (Node.leaf ⟨.impureFunction, tgt⟩ args)
     | "meth" => some (Node.leaf ⟨.method, tgt⟩ args)
     | "comb" => some (Node.combine tgt args)
     | "out" => some ⟨.output, args⟩
@@ -51,6 +53,7 @@ def showNode (g : Graph) (nd : Node) : String :=
   | .input k => s!"in|{k}|"
   | .leaf ⟨.module, t⟩ => s!"mod|{t}|{showArgs g nd.args}"
   | .leaf ⟨.function, t⟩ => s!"fn|{t}|{showArgs g nd.args}"
+  | .leaf ⟨.impureFunction, t⟩ => s!"fni|{t}|{showArgs g nd.args}"
   | .leaf ⟨.method, t⟩ => s!"meth|{t}|{showArgs g nd.args}"
   | .combine c => s!"comb|{c}|{showArgs g nd.args}"
   | .output => s!"out||{showArgs g nd.args}"
@@ -62,7 +65,8 @@ def hashStr (s : String) : Nat := s.toList.foldl (fun h c => (h * 131 + c.toNat)
 expression over the inputs (up to hash collisions) -/
 def hashEnv : Env Nat where
   sem := fun t as =>
-    let k := match t.kind with | .module => "mod" | .function => "fn" | .method => "meth"
+    let k := match t.kind with
+      | .module => "mod" | .function => "fn" | .method => "meth" | .impureFunction => "fni"
     as.foldl (fun h a => (h * 1000003 + a) % 2305843009213693951) (hashStr (k ++ "|" ++ t.target))
   x := fun k => hashStr s!"in|{k}"
   d := 0
@@ -111,7 +115,7 @@ def handle (line : String) : String :=
         let v := hardEval hashEnv win g
         let v' := hardEval hashEnv (fun _ => 0) g'
         let sim := (List.range g'.length).all fun i => !(g'.nd i).live || v.getD i 0 == v'.getD i 0
-        s!"ok win={ws} nodes={ns} mods={ms} plain={showBool plain} sim={showBool sim} out={netOut hashEnv win g} {hyp}"
+        s!"ok win={ws} nodes={ns} mods={ms} plain={showBool plain} sim={showBool sim} out={netOut hashEnv win g} {hyp} pure={showBool (pureLeavesB g)}"
     | _, _, _ => "bad-request"
   | some "history" =>
     match (field? toks "st").bind (parseList? parseCombSt?),
